@@ -162,7 +162,7 @@ pub enum StreamVia {
 
 /// Spawns a stream-attached probe; `prefill` items are ready at once, `close` ends the stream
 /// after them.
-pub fn spawn_probe_on_stream(role: u8, via: StreamVia, prefill: &[u32], close: bool) -> OwningOrAddr {
+pub fn spawn_probe_on_stream(role: u8, via: StreamVia, prefill: &[u32], close: bool, timeout: Option<(u32, bool)>) -> OwningOrAddr {
     use hannibal::prelude::*;
     let st = HStream::default();
     for &i in prefill {
@@ -176,8 +176,20 @@ pub fn spawn_probe_on_stream(role: u8, via: StreamVia, prefill: &[u32], close: b
     match via {
         StreamVia::SpawnOnStream => OwningOrAddr::Addr(probe.spawn_on_stream(st).expect("spawn_on_stream")),
         StreamVia::SpawnOwningOnStream => OwningOrAddr::Own(probe.spawn_owning_on_stream(st).expect("spawn_owning_on_stream")),
-        StreamVia::BuildOnStream => OwningOrAddr::Own(hannibal::build(probe).on_stream(st).spawn_owning()),
-        StreamVia::BoundedOnStream(n) => OwningOrAddr::Own(hannibal::build(probe).bounded_on_stream(n, st).spawn_owning()),
+        StreamVia::BuildOnStream => {
+            let mut b = hannibal::build(probe);
+            if let Some((t, fail)) = timeout {
+                b = b.timeout(Duration::from_millis(t as u64)).fail_on_timeout(fail);
+            }
+            OwningOrAddr::Own(b.on_stream(st).spawn_owning())
+        }
+        StreamVia::BoundedOnStream(n) => {
+            let mut b = hannibal::build(probe);
+            if let Some((t, fail)) = timeout {
+                b = b.timeout(Duration::from_millis(t as u64)).fail_on_timeout(fail);
+            }
+            OwningOrAddr::Own(b.bounded_on_stream(n, st).spawn_owning())
+        }
     }
 }
 
